@@ -142,3 +142,22 @@ PROPS["C04"] = {
     "assumptions": ["panics inside external crates are visible only to the harness", "password-hash strings with bounded cost parameters (m <= 64 KiB, t <= 3) as the property states"],
     "partial": "box / stream entry points proved over the model; the rest by exhaustive-length search on the implementation",
 }
+
+PROPS["C05"] = {
+    "theorems": [
+        {"name": "C05_wrapper_is_rfc", "status": "proved", "statement": "scalarmult n p = RFC 7748 X25519(clamp n, mask p) for every 32-byte scalar and every point encoding (model level: dalek's mul_clamped is modelled by the ladder)"},
+        {"name": "C05_clamp_low", "status": "proved", "statement": "b land 248 = 8*(b/8) for every byte (exhaustive by computation, lifted)"},
+        {"name": "C05_clamp_high", "status": "proved", "statement": "(b land 127) lor 64 = 64 + b mod 64 for every byte"},
+        {"name": "C05_kx_mirror", "status": "partial", "statement": "IF the two DH computations agree (group law: hypothesis) THEN client (rx,tx) = server (tx,rx), and both sides fail together"},
+        {"name": "C05_kx_refuses_zero", "status": "proved", "statement": "all-zero shared secret -> Err on both sides"},
+        {"name": "C05_kx_layout", "status": "proved", "statement": "client rx||tx = BLAKE2b-512(shared || client_pk || server_pk) split in halves"},
+        {"name": "C05_zero_point", "status": "proved", "statement": "non-vacuity: u = 0 gives the all-zero secret"},
+    ],
+    "builds": ["stable"],
+    "rule": "8 (thorough 24) scalars incl. 0, 0xff.., RFC vectors x {complete low-order / non-canonical table incl. libsodium blocklist, u=0..15, p-1, p, p+1, p+2, 2p-2..2p, 2^255-1, 2^256-1, RFC points, all with and without bit 255, 120 (thorough 600) PRNG encodings}: dryoc = libsodium byte for byte (search); "
+            "RFC 7748 iterated vector 1 / 1000 (thorough 10^6) iterations; DH commutation, beforenm, kx client/server vs libsodium for PRNG pairs, kx with every zero-secret peer key; ~50 cases through the extracted Coq ladder (correspondence). non-trivial: all",
+    "modelled": ["curve25519-dalek (MontgomeryPoint::mul_clamped, basepoint table) modelled by the RFC 7748 ladder over Z mod 2^255-19 (Spec/X25519.v); tied by correspondence only",
+                 "HSalsa20 (beforenm) and BLAKE2b (kx) as in C07"],
+    "assumptions": ["DH commutes / the ladder computes scalar multiplication on curve and twist: Montgomery group law, not formalised (no elliptic-curve library installed)"],
+    "partial": "wrapper logic, clamping, kx layout/mirror/zero refusal proved; curve arithmetic differential against an executable Coq spec and libsodium",
+}
